@@ -39,6 +39,17 @@ Proof.
   apply (C11_machine_all t ops i c b ND E).
 Qed.
 Print Assumptions C11_partial_seq_views_and_acceptance.
+(* and the verdict differs in ONE direction only: whenever the final check passes after a removal, it passes on the fresh element given the
+   remaining children (the sticky activation makes the element stricter, never more permissive) - again for all 61 types *)
+Theorem C11_partial_seq_verdict_one_sided : forall k l t, In (k, l) lib_templates -> Classes.is_seq l = true -> stree_of l = Some t ->
+  forall ops i c b, nth_error (ins (mrun t ops)) i = Some (c, b) ->
+  let s1 := fst (mstep (mrun t ops) (MRemove i)) in
+  forall s2, addw (map snd (ins s1)) 0 (AbsSeq.init t) = Some s2 -> erase s2 = erase (tree s1) -> verdict_ok s1 = true -> AbsSeq.required true s2 = [].
+Proof.
+  intros k l t _ S St ops i c b E. destruct (is_seq_parts l S) as (t' & St' & W & ND). rewrite St in St'. injection St' as <-.
+  apply (C11_verdict_one_sided t ops i c b ND E).
+Qed.
+Print Assumptions C11_partial_seq_verdict_one_sided.
 Example C11_nonvacuous : Nat.leb 40 (List.length (filter (fun kl => match stree_of (snd kl) with Some t => Classes.is_seq (snd kl) && negb (has_opt_t t) | None => false end) lib_templates)) = true.
 Proof. vm_compute. reflexivity. Qed.
 
